@@ -149,6 +149,8 @@ def wl_util(spec, ctx, mods):
                     kw["fill_value"] = "FILL"
                 u.intervals_to_samples(iv, labels, **kw)
             else:
+                # the boundary extraction alone is also observed on gapped input
+                u.intervals_to_boundaries(gen.gapped_intervals(r))
                 iv, _ = gen.segmentation(r, start=r.choice([0, 0, 7, 64]))
                 b = u.intervals_to_boundaries(iv)
                 back = u.boundaries_to_intervals(b)
